@@ -199,14 +199,54 @@ Record strlib := {
   sl_lower : list Z -> list Z;
   sl_parseline : list Z -> option (list Z * list Z * list Z);   (* cmd.Cmd.parseline *)
   sl_getattr : list Z -> option nat;                            (* getattr(self, name): the bound method, if any *)
+  sl_ext : string -> list pv -> res pv;                         (* primitives of one group only (Model/PrimsShell.v) *)
 }.
+Definition no_ext : string -> list pv -> res pv := fun _ _ => Stuck.
+
+Fixpoint all_strs (l : list pv) : option (list Z) :=
+  match l with
+  | [] => Some []
+  | PV (VStr s) :: t => match all_strs t with Some r => Some (s ++ r) | None => None end
+  | _ => None
+  end.
+
+(* functional update of an attribute of a record value (value receivers, rule R16) *)
+Fixpoint set_field (k v : pv) (fs : list pv) : list pv :=
+  match fs with
+  | [] => [PTuple [k; v]]
+  | PTuple [k'; w] :: t => if key_eqb k k' then PTuple [k'; v] :: t else PTuple [k'; w] :: set_field k v t
+  | x :: t => x :: set_field k v t
+  end.
+Definition set_attr (k o v : pv) : res pv :=
+  match o with
+  | PTuple [PV (VStr tag); PList fs] => Ok (PTuple [PV (VStr tag); PList (set_field k v fs)])
+  | _ => Stuck
+  end.
+Fixpoint split_dot (acc s : string) : list string :=
+  match s with
+  | EmptyString => [acc]
+  | String c r => if Ascii.eqb c "."%char then acc :: split_dot EmptyString r
+                  else split_dot (acc ++ String c EmptyString) r
+  end.
+Fixpoint set_path (path : list string) (o v : pv) : res pv :=
+  match path with
+  | [] => Ok v
+  | a :: rest =>
+      match rest with
+      | [] => set_attr (PStr a) o v
+      | _ => bind (get_attr a o) (fun sub => bind (set_path rest sub v) (fun sub' => set_attr (PStr a) o sub'))
+      end
+  end.
 
 Definition opaque_method (msg : string -> list pv -> pv) (name : string) (args : list pv) : res pv :=
   match msg name args with PV (VErr k) => Exc k | v => Ok v end.
 
 Definition prim_api (L : strlib) (msg : string -> list pv -> pv) (name : string) (args : list pv) : res pv :=
   match strip_prefix "attr:" name with
-  | Some a => match args with [o] => get_attr a o | _ => Stuck end
+  | Some a => match args with [PRef _] => sl_ext L name args | [o] => get_attr a o | _ => Stuck end
+  | None =>
+  match strip_prefix "setpath:" name with
+  | Some path => match args with [o; v] => set_path (split_dot EmptyString path) o v | _ => Stuck end
   | None =>
   match strip_prefix "isinstance:" name with
   | Some cs => match args with [v] => Ok (PBool (isinstance v cs)) | _ => Stuck end
@@ -266,12 +306,35 @@ Definition prim_api (L : strlib) (msg : string -> list pv -> pv) (name : string)
   else if String.eqb name "builtins.getattr" then
     match args with
     | [PSelf; PV (VStr n); dflt] => match sl_getattr L n with Some k => Ok (PRef k) | None => Ok dflt end
+    | [PTuple [PV (VStr _); PList fs]; PV (VStr n); dflt] =>        (* a value receiver: attributes, then methods *)
+        match assoc (PV (VStr n)) fs with
+        | Some v => Ok v
+        | None => match sl_getattr L n with Some k => Ok (PRef k) | None => Ok dflt end
+        end
+    | [PTuple [PV (VStr _); PList fs]; PV (VStr n)] =>
+        match assoc (PV (VStr n)) fs with Some v => Ok v | None => Exc AttributeError end
     | _ => Stuck
     end
-  else if String.eqb name "fstring" || String.eqb name "call:join" || String.eqb name "builtins.sorted" then
+  else if String.eqb name "fstring" then
+    (* an f-string whose parts are all str is their concatenation; anything else is uninterpreted text *)
+    match all_strs args with Some s => Ok (PV (VStr s)) | None => Ok (msg name args) end
+  else if String.eqb name "call:join" || String.eqb name "builtins.sorted" then
     Ok (msg name args)
   else if String.eqb name "call:execute" || String.eqb name "call:compile" then
     (* a method of ANOTHER object (a new Cursor, a new Compiler): uninterpreted; an error value is raised *)
     opaque_method msg name args
-  else Stuck
-  end end.
+  else if String.eqb name "call:parse" then opaque_method msg name args
+  else if String.eqb name "exc_text" then Ok (msg name args)
+  else if String.eqb name "contains" then
+    match args with
+    | [PTuple [PV (VStr tag); PList fs]; x] =>
+        if zeqb tag (zs dict_tag) then Ok (PBool (match assoc x fs with Some _ => true | None => false end)) else Stuck
+    | [PList l; x] => Ok (PBool (existsb (key_eqb x) l))
+    | _ => Stuck
+    end
+  else if String.eqb name "call:todict" then
+    match args with [PTuple [PV (VStr _); PList fs]] => Ok (PTuple [PStr dict_tag; PList fs]) | _ => Stuck end
+  else if String.eqb name "builtins.setattr" then
+    match args with [o; k; v] => set_attr k o v | _ => Stuck end
+  else sl_ext L name args
+  end end end.
